@@ -1,3 +1,4 @@
+import Bandit.Proofs.LocNewline
 import Bandit.Proofs.Metrics
 import Bandit.Gen.Constants
 /-!
@@ -68,5 +69,15 @@ theorem gen_weights_positive :
     Gen.ranking = [Rank.undefined, .low, .medium, .high].map (fun r => r.name.toList) := by
   refine ⟨?_, by decide⟩
   intro r; cases r <;> decide
+
+/-- **lines of code do not depend on the line-end style**: an LF file, its CRLF rendering and its lone-CR rendering have the same physical lines
+(`bytes.splitlines()` drops the terminators) and therefore the same `loc` -/
+theorem loc_newline_style_independent (s : Bytes) (h : 13 ∉ s) :
+    countLocs (splitLines (toCRLFb s)) = countLocs (splitLines s) ∧ countLocs (splitLines (toCRb s)) = countLocs (splitLines s) := by
+  obtain ⟨h1, h2⟩ := splitLines_newline_style s h
+  rw [h1, h2]; exact ⟨rfl, rfl⟩
+
+example : splitLines (toCRLFb [120, 10, 35, 10, 10, 121]) = [[120], [35], [], [121]] ∧ countLocs (splitLines (toCRLFb [120, 10, 35, 10, 10, 121])) = 2 := by
+  decide
 
 end Props.C12
